@@ -93,8 +93,20 @@ def translate():
          "update_initial_window_size no longer arms WRITABLE when a SETTINGS change re-opens a stream window"),
         (code, r"self\.flow_control\.received_bytes_since_update \+= wire_payload_len;\s*if self\.flow_control\.received_bytes_since_update >= conn_threshold \{\s*let increment = self\.flow_control\.received_bytes_since_update;\s*self\.queue_window_update\(0, increment\);\s*self\.flow_control\.received_bytes_since_update = 0;",
          "handle_data_frame no longer credits the connection window with the whole wire payload (padding included) of every DATA frame"),
-        (code, r"if !data\.end_stream \{\s*self\.queue_window_update\(data\.stream_id, wire_payload_len\);",
-         "handle_data_frame no longer credits the stream window with the whole wire payload of a DATA frame"),
+        (code, r"if !data\.end_stream \{\s*if is_unlinked \{.{0,120}?self\.queue_window_update\(data\.stream_id, wire_payload_len\);\s*\} else \{\s*\*self\.recv_credit_owed\.entry\(data\.stream_id\)\.or_insert\(0\) \+= wire_payload_len;",
+         "handle_data_frame no longer owes the stream the whole wire payload (padding included) of a DATA frame (credited at once only when the payload is discarded)"),
+        (code, r"settings_initial_window_size: DEFAULT_INITIAL_WINDOW_SIZE\.min\(buffer\.capacity\(\) as u32\),",
+         "ConnectionH2::new no longer announces a stream window of at most the stream buffer capacity"),
+        (code, r"fn release_stream_credit<L>.{0,200}?let announced = self\.local_settings\.settings_initial_window_size;.{0,400}?let kawa = match self\.position \{\s*Position::Client\(\.\.\) => &stream\.back,\s*Position::Server => &stream\.front,\s*\};\s*let peer_window = announced\.saturating_sub\(\*owed\);\s*let room = \(kawa\.storage\.available_space\(\) as u32\)\.saturating_sub\(peer_window\);\s*let grant = room\.min\(\*owed\);\s*if grant > 0 \{\s*\*owed -= grant;\s*grants\.push\(\(stream_id, grant\)\);",
+         "release_stream_credit no longer grants min(owed, free space of the buffer read into - the peer's remaining window)"),
+        (code, r"for &\(stream_id, grant\) in &grants \{\s*self\.queue_window_update\(stream_id, grant\);",
+         "release_stream_credit no longer queues the WINDOW_UPDATE of what it grants"),
+        (code, r"pub fn try_resume_reading<L>.{0,120}?\{\s*let credited = self\.release_stream_credit\(context\);",
+         "try_resume_reading (run after the other side of the session wrote) no longer releases stream credit"),
+        (ms, r"// Cross-readiness: backend wrote . wake frontend reader\s*let context = &mut self\.context;\s*self\.frontend\.try_resume_reading\(context\);",
+         "Mux::ready no longer lets the frontend resume reading / release credit after a backend wrote"),
+        (ms, r"for \(_token, backend\) in self\.router\.backends\.iter_mut\(\) \{.{0,700}?if backend\.try_resume_reading\(context\)[^{]{0,300}\{\s*all_backends_readiness_are_empty = false;",
+         "Mux::ready no longer lets the backends resume reading / release credit after the frontend wrote"),
         (code, r"if self\.wire_opened\.len\(\) >= limit \|\| lowest_unopened != Some\(stream_id\) \{\s*continue;",
          "write_streams no longer holds back a backend stream that would exceed the peer's MAX_CONCURRENT_STREAMS"),
         (code, r"parser::SETTINGS_MAX_CONCURRENT_STREAMS => \{ self\.peer_settings\.settings_max_concurrent_streams = v;",
